@@ -313,6 +313,7 @@ class Exec:
         self.max_depth = 40
         self.max_arity = 3
         self.loop_bound = 12
+        self.witness_fn = None
         self.reset_path()
 
     # ---- path state ------------------------------------------------------
@@ -392,7 +393,9 @@ class Exec:
             out["smt2"] = s.to_smt2()
             out["pc"] = [str(c) for c in self.pc][:80]
             if r == z3.sat:
-                out["z3model"] = s.model()
+                # evaluate the witness while the solver still holds this model
+                if self.witness_fn is not None:
+                    out["model"] = self._witness_in_child(s.model())
             else:
                 out["reason"] = s.reason_unknown()
         s.pop()
@@ -400,6 +403,51 @@ class Exec:
         s.set("rlimit", 0)
         out["time"] = round(time.time() - t0, 4)
         return out
+
+    def _witness_in_child(self, model, limit_s=20):
+        """Model evaluation through the Python API crashed / hung z3 5.1 on some
+        models: it runs in a forked child so that it cannot take the run down."""
+        import json
+        import os
+        import select
+        import signal
+        rfd, wfd = os.pipe()
+        pid = os.fork()
+        if pid == 0:
+            try:
+                os.close(rfd)
+                try:
+                    data = json.dumps(self.witness_fn(model), default=str)
+                except Exception as e:
+                    data = json.dumps({"witness-error": repr(e)})
+                os.write(wfd, data.encode())
+            finally:
+                os._exit(0)
+        os.close(wfd)
+        chunks = []
+        import time
+        t0 = time.time()
+        while time.time() - t0 < limit_s:
+            rl, _, _ = select.select([rfd], [], [], 0.5)
+            if rl:
+                b = os.read(rfd, 1 << 16)
+                if not b:
+                    break
+                chunks.append(b)
+        else:
+            try:
+                os.kill(pid, signal.SIGKILL)
+            except OSError:
+                pass
+        os.close(rfd)
+        try:
+            os.waitpid(pid, 0)
+        except OSError:
+            pass
+        try:
+            return json.loads(b"".join(chunks).decode())
+        except Exception:
+            return {"witness-error": "model evaluation crashed or timed out in z3"}
 
     def feasible(self, extra=None):
         self.flush_lemmas()
@@ -510,7 +558,7 @@ class Exec:
                 return Opaque("str-op")
             raise Unsupported("arithmetic on an uninterpreted value (%s)" % (a.what if isinstance(a, Opaque) else b.what))
         plain = (int, bool, str, Fraction, list, tuple, set, frozenset)
-        if isinstance(a, plain) and isinstance(b, plain):
+        if isinstance(a, plain) and isinstance(b, plain) and not (opname == "%" and isinstance(a, str)):
             try:
                 return self._concrete_binop(opname, a, b)
             except ZeroDivisionError:
